@@ -218,6 +218,13 @@ class Gen:
             if c.free_ok:
                 return self.input(c, n, n)
             raise TranslateError("unknown name " + n)
+        if k == "index" and e[1][0] == "mcall" and e[1][2] == "to_le_bytes" and not e[1][3] and e[2] == ("lit", 0, None):
+            a = self.ex(e[1][1], c, None)
+            if a.ty not in BITS or a.untyped:
+                raise TranslateError("to_le_bytes() on a non-integer")
+            if a.const is not None:
+                return Val(zlit(a.const % 256), "u8", a.const % 256)
+            return Val("(%s mod 256)" % a.coq, "u8")      # the low byte of the two's-complement representation
         if is_place(e):
             key = render(e)
             if key in c.places:
@@ -290,7 +297,7 @@ class Gen:
         return False
 
     def input(self, c, key, rust):
-        ty = norm_ty(c.hints.get(key, "i32"))
+        ty = norm_ty(c.hints.get(key) or c.hints.get(key.split("[")[0], "i32"))
         name = "x%d" % (len(c.inputs) + 1)
         c.inputs.append((name, rust, ty))
         v = Val(name, ty)
@@ -1005,6 +1012,20 @@ def generate():
             right = one(R.find_all(b, lambda n: n[0] == "let" and n[1] == ("pvar", "right")), "verify_internal `let right`")
             if right[3] != ("bin", "==", ("var", "c_tilde"), ("var", "c_tilde_p")):
                 raise TranslateError("verify_internal: `right` is no longer `c_tilde == c_tilde_p`")
+    # ---- conversion.rs: hint_bit_unpack, every exit / loop condition in source order
+    _, _, b = R.find_fn(cv, "hint_bit_unpack")
+    conds = []
+    R.walk(b, lambda n: conds.append(n[1]) if (n and isinstance(n[0], str) and (
+        n[0] == "while" or (n[0] == "if" and R.find_all(n[2], lambda m: m[0] == "return")))) else None)
+    if len(conds) != 5:
+        raise TranslateError("hint_bit_unpack: expected 5 exit/loop conditions, found %d" % len(conds))
+    hb_hints = {"y_bytes": "u8", "index": "u8", "first": "u8"}
+    for i, cnd in enumerate(conds):
+        g.fragment("k_hbu_cond%d" % (i + 1), "conversion.rs: fn hint_bit_unpack, condition %d" % (i + 1), cnd, hints=dict(hb_hints), want="bool")
+    fors = R.find_all(b, lambda n: n[0] == "for")
+    if len(fors) != 2 or fors[1][2][0] != "range" or fors[1][2][3] or fors[1][2][1] != ("var", "index"):
+        raise TranslateError("hint_bit_unpack: the trailing-zero loop is no longer `for i in index..<bound>`")
+    g.fragment("k_hbu_tail_bound", "conversion.rs: fn hint_bit_unpack, upper bound of the trailing-zero loop", fors[1][2][2], hints=dict(hb_hints))
     g.out.append("Definition kernel_names : list string := [%s].\n" % "; ".join('"%s"' % k for k, _ in g.kernels))
     return "\n".join(g.out)
 
